@@ -609,6 +609,23 @@ pub fn literals() -> Vec<Lit> {
             }
         }
     }
+    // ---- magnitudes that are a valid value plus a power of two (what a narrowing conversion would turn into a
+    // valid value): every field of a time of day, a date and a date-and-time
+    for k in [8u32, 16, 32, 63, 64, 127] {
+        let big = |v: u128| -> String { format!("{}", (1u128 << k) + v) };
+        let mk = |label: &str, type_text: &'static str, pieces: Vec<String>| Lit { label: format!("{}/field=valid+2^{}", label, k), type_text, pieces, expect: Expect::Reject("field out of range"), address: false };
+        for (h, m, sec) in [(big(12), "30".to_string(), "15".to_string()), ("12".to_string(), big(30), "15".to_string()), ("12".to_string(), "30".to_string(), big(15)), (big(0), big(0), big(0))] {
+            out.push(mk("tod", "TIME_OF_DAY", vec!["TOD".into(), "#".into(), h.clone(), ":".into(), m.clone(), ":".into(), sec.clone()]));
+            out.push(mk("dt", "DATE_AND_TIME", vec!["DT".into(), "#".into(), "2021".into(), "-".into(), "06".into(), "-".into(), "15".into(), "-".into(), h, ":".into(), m, ":".into(), sec]));
+        }
+        for (y, m, d) in [(big(2021), "06".to_string(), "15".to_string()), ("2021".to_string(), big(6), "15".to_string()), ("2021".to_string(), "06".to_string(), big(15)), (big(1), big(1), big(1))] {
+            if k == 8 && m == "06" && d == "15" {
+                continue; // 2021 + 256 is a year like any other
+            }
+            out.push(mk("date", "DATE", vec!["D".into(), "#".into(), y.clone(), "-".into(), m.clone(), "-".into(), d.clone()]));
+            out.push(mk("dt", "DATE_AND_TIME", vec!["DT".into(), "#".into(), y, "-".into(), m, "-".into(), d, "-".into(), "12".into(), ":".into(), "30".into(), ":".into(), "15".into()]));
+        }
+    }
     // ---- every digit: each digit character in each base, alone and after another digit; a digit the base
     // does not have makes the text something that is no integer literal (it must not come out as a value)
     for base in [2u32, 8, 10, 16] {
